@@ -127,12 +127,11 @@ Section Tree.
 
 Variable H : chunk -> chunk -> chunk.
 
-(* zeroHashes[d] *)
-Fixpoint zero_hash (d : nat) : chunk :=
-  match d with
-  | O => zero_chunk
-  | S d' => let z := zero_hash d' in H z z
-  end.
+(* The table zeroHashes[0..64] that fastssz precomputes in init().  It is a parameter of the model:
+   no theorem needs to know what the table holds (for translation validation it is instantiated with
+   zero_hash below, which is what init() computes); keeping it abstract also keeps symbolic roots
+   small. *)
+Variable Z : nat -> chunk.
 
 (* one layer of merkleizeImpl: an odd layer is completed with z = zeroHashes[i] *)
 Fixpoint pairs (z : chunk) (l : list chunk) : list chunk :=
@@ -142,11 +141,11 @@ Fixpoint pairs (z : chunk) (l : list chunk) : list chunk :=
   | a :: b :: r => H a b :: pairs z r
   end.
 
-(* d layers, the current one completed with z (= zeroHashes[i] at layer i) *)
-Fixpoint layers (d : nat) (z : chunk) (l : list chunk) : list chunk :=
+(* d layers starting at layer i; an odd layer i is completed with zeroHashes[i] *)
+Fixpoint layers (d : nat) (i : nat) (l : list chunk) : list chunk :=
   match d with
   | O => l
-  | S d' => layers d' (H z z) (pairs z l)
+  | S d' => layers d' (S i) (pairs (Z i) l)
   end.
 
 (* merkleizeImpl(dst, input, limit); None = the Go code panics ("count higher than limit") or
@@ -159,8 +158,8 @@ Definition merkleize (cs : list chunk) (limit : N) : option chunk :=
   if N.eqb lim 1 then Some (match cs with [c] => c | _ => zero_chunk end) else
   let depth := N.to_nat (N.log2_up lim) in
   match cs with
-  | [] => Some (zero_hash depth)
-  | _ => match layers depth zero_chunk cs with [r] => Some r | _ => None end
+  | [] => Some (Z depth)
+  | _ => match layers depth 0 cs with [r] => Some r | _ => None end
   end.
 
 (* MerkleizeWithMixin *)
@@ -207,9 +206,9 @@ Proof.
     f_equal. f_equal. apply IH; auto. simpl in L. lia.
 Qed.
 
-Lemma layers_inj : forall d z l1 l2, length l1 = length l2 -> layers d z l1 = layers d z l2 -> l1 = l2.
+Lemma layers_inj : forall d i l1 l2, length l1 = length l2 -> layers d i l1 = layers d i l2 -> l1 = l2.
 Proof.
-  induction d; simpl; intros z l1 l2 L E; auto.
+  induction d; simpl; intros i l1 l2 L E; auto.
   apply IHd in E; [|apply pairs_length; auto].
   eapply pairs_inj; eauto.
 Qed.
@@ -238,8 +237,8 @@ Proof.
     + destruct cs1 as [|a r1].
       * destruct cs2; [reflexivity|discriminate].
       * destruct cs2 as [|a' r2]; [discriminate|].
-        destruct (layers (N.to_nat (N.log2_up lim)) zero_chunk (a :: r1)) as [|x [|y t]] eqn:L1; try discriminate.
-        destruct (layers (N.to_nat (N.log2_up lim)) zero_chunk (a' :: r2)) as [|x' [|y' t']] eqn:L2; try discriminate.
+        destruct (layers (N.to_nat (N.log2_up lim)) 0 (a :: r1)) as [|x [|y t]] eqn:L1; try discriminate.
+        destruct (layers (N.to_nat (N.log2_up lim)) 0 (a' :: r2)) as [|x' [|y' t']] eqn:L2; try discriminate.
         inversion E1; inversion E2; subst.
         eapply layers_inj; [exact L|]. rewrite L1, L2. reflexivity.
 Qed.
@@ -274,6 +273,14 @@ Qed.
 
 End Tree.
 
+(* zeroHashes as fastssz's init() computes it: zeroHashes[0] = 32 zero bytes,
+   zeroHashes[i+1] = H(zeroHashes[i], zeroHashes[i]). *)
+Fixpoint zero_hash (H : chunk -> chunk -> chunk) (d : nat) : chunk :=
+  match d with
+  | O => zero_chunk
+  | S d' => let z := zero_hash H d' in H z z
+  end.
+
 (* ---------------------------------------------------------------------------------------- *)
 (* Facts that hold for every H (no injectivity): the padding collisions of PutBytes. *)
 
@@ -287,10 +294,10 @@ Proof.
 Qed.
 
 (* A trailing zero byte is invisible to PutBytes for values shorter than 32 bytes... *)
-Lemma put_bytes_pad_collision : forall H b, 0 < length b -> length b < 32 ->
-  put_bytes H (b ++ [0%N]) = put_bytes H b.
+Lemma put_bytes_pad_collision : forall H Z b, 0 < length b -> length b < 32 ->
+  put_bytes H Z (b ++ [0%N]) = put_bytes H Z b.
 Proof.
-  intros H b P L. unfold put_bytes.
+  intros H Z b P L. unfold put_bytes.
   assert (L1 : length (b ++ [0%N]) = S (length b)) by (rewrite app_length; simpl; lia).
   rewrite L1.
   replace (S (length b) <=? 32) with true by (symmetry; apply Nat.leb_le; lia).
@@ -301,5 +308,5 @@ Proof.
 Qed.
 
 (* ... and the empty string contributes no chunk at all. *)
-Lemma put_bytes_empty : forall H, put_bytes H [] = Some [].
+Lemma put_bytes_empty : forall H Z, put_bytes H Z [] = Some [].
 Proof. reflexivity. Qed.
